@@ -12,7 +12,7 @@ const VERSIONS: [AdtVersion; 6] = [AdtVersion::VanillaEarly, AdtVersion::Vanilla
 
 fn f(rng: &mut Rng) -> f32 { (rng.below(200_000) as f32) / 64.0 - 1000.0 }
 
-fn water(rng: &mut Rng) -> Mh2oChunk {
+pub fn water(rng: &mut Rng) -> Mh2oChunk {
     let mut entries = vec![Mh2oEntry::default(); 256];
     let n = rng.range(1, 6);
     for _ in 0..n {
